@@ -52,6 +52,9 @@ func checkC08(c *Ctx) {
 	c.Rule("C08-R9", "Dirty: a zero marker rune means dirty whatever the cell holds; the shown and the current combining runes are compared with their lengths")
 	c.Expect("C08-R9", 2)
 	checkDirtyDecisions(c, p, "C08-R9")
+	c.Rule("C08-R10", "changing a wide rune dirties every column it covered whatever the base cell's own marker says: the neighbour-dirtying sites of SetContent and Fill are not control-dependent on lastMain")
+	c.Expect("C08-R10", 1)
+	checkWideDirtyIndependentOfMarker(c, p, "C08-R10")
 	ms := cbMethods(p)
 	for _, need := range []string{"SetContent", "GetContent", "Dirty", "SetDirty", "Invalidate", "Resize", "Fill", "LockCell", "UnlockCell"} {
 		if ms[need] == nil {
